@@ -8,3 +8,5 @@ import Gomjml.Props.C09
 #print axioms Gomjml.Props.C09.C09_no_read_past_resolvers
 #print axioms Gomjml.Props.C09.C09_css_class
 #print axioms Gomjml.Props.C09.C09_store_is_last_definition
+#print axioms Gomjml.Props.C09.C09_class_level_is_the_merge
+#print axioms Gomjml.Props.C09.C09_css_class_level_is_the_merge
